@@ -66,7 +66,7 @@ def run(gen_path, modules, rlimit=30, threads=16, seed=None, cache_dir=None, ext
             for sp in d.get('spans', []):
                 for x in sp.get('text', []):
                     labs += LABEL_RE.findall(x['text'])
-            diags.append({'message': d.get('message', ''), 'labels': list(dict.fromkeys(labs)),
+            diags.append({'message': d.get('message', ''), 'labels': list(dict.fromkeys(labs)), 'rustc_code': (d.get('code') or {}).get('code'),
                           'spans': [{'line_start': s['line_start'], 'line_end': s['line_end'], 'is_primary': s['is_primary'],
                                      'label': s.get('label'), 'text': [x['text'] for x in s.get('text', [])][:6]} for s in d.get('spans', [])],
                           'rendered': d.get('rendered', '')[:4000]})
@@ -85,7 +85,10 @@ def run(gen_path, modules, rlimit=30, threads=16, seed=None, cache_dir=None, ext
          'verified': vr.get('verified'), 'errors': vr.get('errors'),
          'vir_error': vr.get('encountered-vir-error'),
          'smt_ms': times.get('smt', {}).get('total'), 'total_ms': times.get('total'),
-         'func_times': func_times, 'have_results': ('verified' in vr) and not vr.get('encountered-vir-error'), 'raw_err_tail': err[-3000:] if 'verified' not in vr else '',
+         'func_times': func_times,
+         # a rustc-level error (type error in spliced or mutated text) leaves `verified: 0, errors: 0` behind: that is no result
+         'have_results': ('verified' in vr) and not vr.get('encountered-vir-error') and not any(d.get('rustc_code') for d in diags)
+                         and not (vr.get('encountered-error') and vr.get('verified') == 0 and vr.get('errors') == 0 and diags), 'raw_err_tail': err[-3000:] if 'verified' not in vr else '',
          'cache': 'miss'}
     if cpath and r['have_results']:
         os.makedirs(cache_dir, exist_ok=True)
